@@ -116,6 +116,11 @@ pub fn oracle_roundtrip(sub: &str, x: &[u8], rank: u64, case: &dyn Fn() -> Value
             _ => bad("bytes-depend-on-sink", "", format!("writing to a sink taking {} bytes per call fails", chunk)),
         }
     }
+    // a clone is the same package
+    match catch(|| write_pkg(&p.clone())) {
+        Ok(Ok(wc)) if wc == w => {}
+        _ => bad("clone-differs", "", "a clone of the parsed package does not write the same bytes".into()),
+    }
     // fixpoint
     match parse_pkg(&w) {
         Ok(Ok(p2)) => {
@@ -225,6 +230,39 @@ pub fn oracle_offsets(sub: &str, p: &Package, rank: u64, case: &dyn Fn() -> Valu
     }
     if (w.len() as u64).checked_sub(o.payload) != Some(p.content.len() as u64) {
         bad("payload-length", format!("len {} - payload {} != content {}", w.len(), o.payload, p.content.len()));
+    }
+}
+
+/// For packages the library emitted: the payload really starts at the reported payload offset — the bytes there open
+/// with the magic number of the compressor the header names (or with a cpio entry header), so an offset that is consistent
+/// with the intro fields but not with where the archive was written is noticed.
+pub fn oracle_payload_start(sub: &str, p: &Package, rank: u64, case: &dyn Fn() -> Value, acc: &mut Acc) {
+    let Ok((o, Ok(w))) = catch(|| (p.metadata.get_package_segment_offsets(), write_pkg(p))) else { return };
+    let Some((_, _, hdr, _)) = scan_opts(&w, false) else { return };
+    let comp = hdr.entries.iter().skip(1).find(|e| e.tag == 1125).and_then(|e| refhdr::value(e, &hdr.store).ok());
+    let magic: &[u8] = match comp {
+        Some(refhdr::Val::Str(s)) => match &s[..] {
+            b"gzip" => &[0x1f, 0x8b],
+            b"zstd" => &[0x28, 0xb5, 0x2f, 0xfd],
+            b"xz" => &[0xfd, 0x37, 0x7a, 0x58, 0x5a, 0x00],
+            b"bzip2" => b"BZh",
+            _ => return,
+        },
+        None => b"0707",
+        _ => return,
+    };
+    let at = w.get(o.payload as usize..).unwrap_or(&[]);
+    if at.is_empty() {
+        return;
+    }
+    if !at.starts_with(magic) {
+        // where does it start, then?
+        let real = (o.header as usize..w.len().saturating_sub(magic.len())).find(|i| w[*i..].starts_with(magic));
+        acc.viol(
+            Violation::new(sub, format!("the payload does not start at the reported payload offset {}: the bytes there are {:02x?}, the archive ({:02x?}…) was written at {:?}", o.payload, &at[..at.len().min(6)], magic, real), case())
+                .sig("clause", "payload-start")
+                .rank(rank),
+        );
     }
 }
 
